@@ -44,10 +44,9 @@ type jsonAsync struct {
 }
 
 type Async struct {
-	routineStarted bool
-	Enable         bool
-	Threshold      int
-	Timeout        time.Duration
+	Enable    bool
+	Threshold int
+	Timeout   time.Duration
 }
 
 func (a *Async) MarshalJSON() ([]byte, error) {
@@ -77,6 +76,9 @@ type Schema struct {
 	db           *DB
 	object       Object
 	transformers []FieldDescriptor
+	// tells if the routine flushing async writes is running
+	// it belongs to the Schema because AsyncWrites can be replaced by Create
+	asyncRoutineStarted bool
 
 	Fields      FieldDescMap `json:"fields"`
 	Extension   string       `json:"extension"`
